@@ -697,9 +697,10 @@ def ser_progx(bt, node, spec_node, bdates, first_row=1):
         elif d[0] == "LimitWeights":
             ptoks.append("W " + E.tF(float(d[1])))
         elif d[0] == "LimitDeltas":
-            # the algo iterates over set(children.keys() + weights.keys()); every key of the weights is a child here, so that is
-            # the iteration order of this very set in this process (new keys enter the dict - and are traded - in that order)
-            order = [name_idx[x] for x in set(list(node.children.keys()) + list(node.children.keys()))]
+            # the algo iterates over the children's names, then the targeted names that are not children yet, each once (before the
+            # repair of LimitDeltas: over a set of strings, in the hash order of the process); every key of the weights is a child
+            # here, so that is the children's order (new keys enter the dict - and are traded - in that order)
+            order = [name_idx[x] for x in dict.fromkeys(list(node.children.keys()))]
             if isinstance(d[1], dict):
                 per = [(name_idx[x], float(v)) for x, v in d[1].items()]
                 ptoks.append("D %s N %s" % (E.tL(order, str), E.tL(per, lambda q: "%d %s" % (q[0], E.tF(q[1])))))
